@@ -7,6 +7,7 @@ from vsa.facts import Facts, unwrap, show, walk, lit_value
 from vsa.front import AnalysisBroken
 from vsa.alg import Fold, S, F as Fn, equal, is_zero, guard_strs
 from vsa.cfg import CFG
+from vsa.cases import decide, resolve_ite
 
 LEVEL = "other"
 C = "votca::csg::"
@@ -227,6 +228,18 @@ def check_lammps(rep, F, consts):
               "LAMMPS dump box: writer items %s, reader scales by %s" % (box_items, rf), fb.loc(), sample=True)
 
 
+def atoms_in(c):
+    """applied undefined functions in a structured condition"""
+    from sympy.core.function import AppliedUndef
+    out = set()
+    if isinstance(c, tuple):
+        for x in c:
+            out |= atoms_in(x)
+    elif hasattr(c, "atoms"):
+        out |= c.atoms(AppliedUndef)
+    return out
+
+
 # ------------------------------------------------------------------------------------------ GRO
 def check_gro(rep, F, consts):
     fw = F.one(C + "GROWriter::Write")
@@ -287,13 +300,23 @@ def check_gro(rep, F, consts):
         names, facs, e = box_items[0]
         wmap = [tuple(int(x) for x in re.search(r"\((\d),(\d)\)$", n).groups()) for n in names]
         rmap = {}
-        fo2 = Fold(fr, opaque_types=r"std::vector<").run()
-        for ev in fo2.events:
-            if ev["kind"] == "store":
-                m = re.match(r"^box\((\d), (\d)\)$", ev["target"])
-                mm = re.match(r"^at\(fields, (\d+)\)$", str(ev["value"]))
-                if m and mm and any("== 9" in g for g in guard_strs(fo2, ev["guards"])):
-                    rmap[int(mm.group(1))] = (int(m.group(1)), int(m.group(2)))
+        fo2 = Fold(fr, opaque_types=r"std::vector<", record_calls=r"Topology::setBox$").run()
+        sb = [ev for ev in fo2.events if ev["kind"] == "call" and ev["args"] and isinstance(ev["args"][0], Matrix) and ev["args"][0].shape == (3, 3)]
+        if len(sb) != 1:
+            rep.broken("R8.1", "GROReader::NextFrame: expected one setBox(<3x3 matrix>) call, found %d" % len(sb))
+            return
+        from sympy.core.function import AppliedUndef
+        conds2 = getattr(fo2, "conds", {})
+        M = sb[0]["args"][0]
+        for i_ in range(3):
+            for j_ in range(3):
+                ent = M[i_, j_]
+                szs = {a for cs in conds2.values() for a in atoms_in(cs) if str(a.func) == "size"}
+                sub9 = {a: sp.Integer(9) for a in szs}
+                ent = resolve_ite(ent, lambda cs: decide(conds2.get(cs), sub9) if cs in conds2 else None)
+                mm = re.match(r"^at\(.*, (\d+)\)$", str(ent))
+                if mm and str(getattr(ent, "func", "")) == "at":
+                    rmap[int(mm.group(1))] = (i_, j_)
         rseq = [rmap.get(k) for k in range(9)]
         ok = wmap == rseq and all(abs(f - 1) < 1e-12 for f in facs) and len(set(wmap)) == 9
         why = "writer emits box elements %s, reader assigns fields 0..8 to %s" % (wmap, rseq)
